@@ -76,7 +76,7 @@ def loop_unknown(v):
 
 # ---- sequences ---------------------------------------------------------------------------------
 
-_TRANSPARENT = ("std::iter::IntoIterator::into_iter", "core::slice::<impl [T]>::iter", "std::iter::Iterator::cloned", "std::iter::Iterator::copied",
+_TRANSPARENT = ("std::iter::IntoIterator::into_iter", "core::slice::<impl [T]>::iter", "std::iter::Iterator::enumerate", "std::iter::Iterator::cloned", "std::iter::Iterator::copied",
                 "std::iter::Iterator::collect", "smallvec::SmallVec::<A>::iter", "std::vec::Vec::<T>::iter", "deref", "std::clone::Clone::clone",
                 "smallvec::SmallVec::<A>::into_iter", "std::iter::Iterator::by_ref", "std::iter::FromIterator::from_iter", "std::iter::Iterator::fuse",
                 "smallvec::SmallVec::<A>::from_vec", "smallvec::SmallVec::<A>::into_vec", "std::convert::Into::into", "std::convert::From::from",
